@@ -247,7 +247,8 @@ func runC13Partitions(s *sim.Sim) {
 		q := pq{kind: sim.Pick(s, "query", "shard", "shard-lookback", "shard-lookback", "whole")}
 		q.id = []string{"t1", "t2", "t3"}[s.Choose(3, "tenant")]
 		q.size = sim.Pick(s, "size", 0, 1, 2, 3, 1, 2, 9)
-		q.lookback = sim.Pick(s, "lookback", time.Minute, 10*time.Minute, 10*time.Minute, time.Hour)
+		// periods with a fraction of a second too: window starts then round differently from whole-second arithmetic
+		q.lookback = sim.Pick(s, "lookback", time.Minute, 10*time.Minute, 10*time.Minute, time.Hour, time.Minute+500*time.Millisecond, 10*time.Minute+500*time.Millisecond, 20*time.Second+900*time.Millisecond)
 		q.nowOff = sim.Pick(s, "now-offset", 0, 0, -time.Second, -time.Minute, -10*time.Minute, -time.Hour, time.Second, time.Minute, 10*time.Minute, time.Hour)
 		if q.kind == "shard-lookback" && len(asked) < 8 {
 			asked = append(asked, q)
